@@ -44,7 +44,7 @@ Print Assumptions C09_flowset_envelope.
 (* THE ROUND TRIP, whole packet: every V9 packet parse_bytes reports (any state, allowed set,
    flowset mix, padding, templates cached earlier) whose decoded data values are all of the
    lossless kinds (lossless_value: unsigned numbers, 3-byte signed, addresses, floats, byte
-   vectors incl. unknown types, protocols other than 145) re-exports to EXACTLY the bytes it
+   vectors incl. unknown types, protocols other than 145..254) re-exports to EXACTLY the bytes it
    occupied: the input is that export followed by the unconsumed rest. *)
 Theorem C09_packet_roundtrip : forall puf allow s x p rest s',
   parse_one puf allow s x = StOk (PV9 p) rest s' -> v9_lossless p = true ->
